@@ -353,7 +353,8 @@ func (c *Collector) cleanup(now int64) {
 
 	c.endpoints.Range(func(url string, data *endpointData) bool {
 		count++
-		if atomic.LoadInt64(&data.lastUsed) < cutoff {
+		// a record with attempts in flight is in use, however long ago its last request completed
+		if atomic.LoadInt64(&data.lastUsed) < cutoff && atomic.LoadInt64(&data.activeConnections) == 0 {
 			toRemove = append(toRemove, url)
 		}
 		return true
